@@ -20,6 +20,7 @@ RULES = {
     "C01.R5e": lambda ctx: encrules.sections(ctx, "C01.R5e"),
     "C01.R5d": lambda ctx: bldrules.sections_sorted(ctx, "C01.R5d"),
     "C01.R1b": lambda ctx: encrules.serde_symmetry(ctx, "C01.R1b"),
+    "C01.R0": lambda ctx: __import__("rules.foundations", fromlist=["x"]).accessors(ctx, "C01.R0", None),
     "C01.R6": lambda ctx: encrules.only_duplicates_skipped(ctx, "C01.R6"),
     "C01.R7": lambda ctx: bldrules.cache_coherence(ctx, "C01.R7"),
     "C01.R8": lambda ctx: __import__("rules.vlqrules", fromlist=["x"]).reader_shape(ctx, "C01.R8"),
